@@ -2,6 +2,7 @@ package chain
 
 import (
 	"fmt"
+	"github.com/elys-network/elys/app"
 
 	"cosmossdk.io/math"
 	sdk "github.com/cosmos/cosmos-sdk/types"
@@ -176,4 +177,19 @@ func (w *World) Prologue(c PrologueCfg) {
 		panic("prologue: governance proposal enabling pool 1 did not pass")
 	}
 	w.Step(5, w.Tx(u[1], &sstypes.MsgBond{Creator: u[1].S(), Amount: math.NewInt(c.Bond)}), w.Tx(u[2], &sstypes.MsgBond{Creator: u[2].S(), Amount: math.NewInt(c.Bond * 3 / 5)}))
+}
+
+// USDValueOfOne is amm.CalculateUSDValue(denom, 1) for the harness's own use: that function panics
+// inside the pool arithmetic on some states (e.g. the base currency's feed has lapsed and the
+// fallback route prices against an emptied reserve); a handler calling it fails its transaction,
+// and the harness must neither die of it nor let a probe turn it into a failure of the transaction
+// under observation. A panic is reported as "no value".
+func USDValueOfOne(a *app.ElysApp, ctx sdk.Context, denom string) (v math.LegacyDec, ok bool) {
+	defer func() {
+		if r := recover(); r != nil {
+			v, ok = math.LegacyZeroDec(), false
+		}
+	}()
+	cc, _ := ctx.CacheContext()
+	return a.AmmKeeper.CalculateUSDValue(cc, denom, math.NewInt(1)), true
 }
